@@ -686,6 +686,47 @@ def h_nx_msg(ctx, name):
   ctx.witness('roundtrip')
 
 
+def h_nx_reuse(ctx, container, how):
+  """One nx_match object encoded, changed in place through its documented attribute API (a mask added to / removed from an existing entry,
+  which changes the entry's wire size), and encoded again inside the same message: every encoding must equal that of a freshly built
+  equivalent message - lengths, match_len, padding and all - and decode back."""
+  from props import env
+  env.get_core()
+  nx = ctx.pox('pox.openflow.nicira'); addrs = ctx.pox('pox.lib.addresses'); of = ctx.pox('pox.openflow.libopenflow_01')
+  ip = ctx.bytes('ip', 4); mask = ctx.bytes('mask', 4)
+  for v, m_ in zip(ip, mask): ctx.assume((v & (~m_ & 0xff)) == 0)
+  ctx.assume(ctx.Not(ctx.And(*[(x == 255) for x in mask])))          # an all-ones mask is encoded as "no mask"
+  xid = ctx.int('xid', 0, 0xffffffff)
+  def message(match):
+    if container == 'flow_mod':
+      o = nx.nx_flow_mod(); o.cookie = 5; o.priority = 7; o.actions.append(of.ofp_action_output(port=2, max_len=0))
+    else:
+      o = nx.nxt_packet_in(); o.data = b'\x01\x02\x03'; o.total_len = 3; o.buffer_id = 9
+    o.match = match; o.xid = xid
+    return o
+  def fresh(with_mask):
+    m = nx.nx_match(); m.append(nx.NXM_OF_ETH_TYPE(0x0800))
+    m.append(nx.NXM_OF_IP_DST(addrs.IPAddr(ip), addrs.IPAddr(mask)) if with_mask else nx.NXM_OF_IP_DST(addrs.IPAddr(ip)))
+    return m
+  m = fresh(False)
+  o = message(m)
+  b1 = o.pack()
+  ctx.check('first encoding == fresh message without mask', _eq_bytes(ctx, b1, list(message(fresh(False)).pack())))
+  if how == 'mask_attr': m.of_ip_dst_mask = addrs.IPAddr(mask)
+  elif how == 'with_mask': m.of_ip_dst_with_mask = (addrs.IPAddr(ip), addrs.IPAddr(mask))
+  else: m.of_ip_dst_entry = nx.NXM_OF_IP_DST(addrs.IPAddr(ip), addrs.IPAddr(mask))
+  b2 = o.pack()
+  ref2 = message(fresh(True)).pack()
+  ctx.check('encoding after a mask was added in place == fresh message with mask', _eq_bytes(ctx, b2, list(ref2)))
+  ctx.check('header length field == byte count', ((b2[2] << 8) | b2[3]) == len(b2) and len(b2) == len(o))
+  off, o2 = type(o).unpack_new(b2)
+  ctx.check('decodes: consumed', off == len(b2)); ctx.check('decodes: equal', o2 == o)
+  m.of_ip_dst_mask = None
+  b3 = o.pack()
+  ctx.check('encoding after the mask was removed again == first encoding', _eq_bytes(ctx, b3, list(b1)))
+  ctx.witness('roundtrip')
+
+
 def obligations(tier):
   thorough = tier != 'quick'
   cases = []
@@ -735,6 +776,8 @@ def obligations(tier):
     Obligation('O4_nx_messages', h_nx_msg, [dict(name=k) for k in ('nx_flow_mod_table_id', 'nx_packet_in_format', 'nx_role_request', 'nx_async_config', 'nx_flow_mod:0:0', 'nx_flow_mod:1:1',
                                                             'nx_flow_mod:2:0', 'nx_flow_mod:2:1', 'nxt_packet_in:0:0', 'nxt_packet_in:1:3', 'nxt_packet_in:2:1')],
                witnesses=('roundtrip',), desc='Nicira vendor messages: header, vendor id, decode == original, re-encode identical'),
+    Obligation('O4_nx_reuse', h_nx_reuse, [dict(container=c, how=h) for c in ('flow_mod', 'packet_in') for h in ('mask_attr', 'with_mask', 'entry')], witnesses=('roundtrip',),
+               desc='an nx_match changed in place (mask added / removed on an existing entry) between two encodings of the message that carries it'),
     Obligation('O3_match_forms', h_match_forms, [dict(embed=e) for e in ('match', 'flow_mod', 'flow_removed')], witnesses=('roundtrip', 'raw-bytes-form'),
                desc='ofp_match built through the public API with every accepted address input form == the canonical form; decode equality'),
     Obligation('O3_match', h_match, [dict(flow_mod=False, tied=not thorough), dict(flow_mod=True, tied=not thorough)], witnesses=('match',), split=16,
